@@ -298,8 +298,11 @@ def check(ctx):
         for n in P.walk_no_nested(f):
             if isinstance(n, (ast.Assign, ast.AugAssign, ast.AnnAssign)):
                 tg = n.targets if isinstance(n, ast.Assign) else [n.target]
-                if any(isinstance(t, ast.Name) and t.id in flow for t in tg) and n.value is not None and id(n.value) not in seen and n.value not in exprs:
-                    exprs.append(n.value)
+                v_ = n.value
+                if isinstance(v_, (ast.ListComp, ast.GeneratorExp)) and len(v_.generators) == 1:
+                    v_ = v_.elt   # a list of pieces built by a comprehension: each piece is its element expression
+                if any(isinstance(t, ast.Name) and t.id in flow for t in tg) and v_ is not None and id(v_) not in seen and v_ not in exprs:
+                    exprs.append(v_)
                     changed = True
             elif isinstance(n, ast.Call) and isinstance(n.func, ast.Attribute) and n.func.attr in ('append', 'extend', 'insert') and isinstance(n.func.value, ast.Name) \
                     and n.func.value.id in flow:
